@@ -16,6 +16,21 @@ use std::sync::RwLock;
 use std::sync::atomic::{AtomicU64, Ordering};
 use uuid::Uuid;
 
+/// Under the verification guard `chrono::Utc::now()` inside the backup functions reads the
+/// simulated wall clock (the manifest's timestamps decide how many writes it takes).
+#[cfg(nervusdb_verif)]
+mod verif_chrono {
+    pub struct Utc;
+    impl Utc {
+        pub fn now() -> ::chrono::DateTime<::chrono::Utc> {
+            match nervusdb_api::verif::now_unix_nanos() {
+                Some(n) => ::chrono::DateTime::from_timestamp_nanos(n),
+                None => ::chrono::Utc::now(),
+            }
+        }
+    }
+}
+
 /// Handle to an in-progress or completed backup.
 #[derive(Debug, Clone)]
 pub struct BackupHandle {
@@ -151,6 +166,8 @@ impl BackupManager {
     pub fn begin_backup(&self) -> Result<BackupHandle> {
         #[cfg(nervusdb_verif)]
         use nervusdb_api::verif::std_shim as std;
+        #[cfg(nervusdb_verif)]
+        use verif_chrono as chrono;
         // Check if backup already in progress
         if self.active_backup.read().unwrap().is_some() {
             return Err(Error::BackupProtocol(
@@ -289,6 +306,8 @@ impl BackupManager {
     /// Execute the backup by copying files.
     /// This can be called in a background thread.
     pub fn execute_backup(&self, handle: &BackupHandle) -> Result<()> {
+        #[cfg(nervusdb_verif)]
+        use verif_chrono as chrono;
         // Copy .ndb file
         self.copy_ndb_file(handle)?;
 
